@@ -378,6 +378,17 @@ func escapeRule(w *World, r *Report, only *ssa.Function) int {
 							g, v = gg, x
 						}
 					}
+				case *ssa.Call:
+					// a value fetched from a package-level container (sync.Map.Load, a getter on a global
+					// cache): what comes out is shared with every other caller
+					if len(x.Call.Args) > 0 && x.Call.StaticCallee() != nil && !w.inModule(x.Call.StaticCallee()) {
+						if gg, ok := x.Call.Args[0].(*ssa.Global); ok {
+							name := x.Call.StaticCallee().Name()
+							if strings.HasPrefix(name, "Load") || strings.HasPrefix(name, "Get") || name == "Swap" {
+								g, v = gg, x
+							}
+						}
+					}
 				}
 				if g == nil || g.Pkg == nil || g.Pkg.Pkg == nil || !strings.HasPrefix(g.Pkg.Pkg.Path(), w.ModPath) {
 					continue
